@@ -419,11 +419,13 @@ def cache_cases():
         f = lambda e_, v2: True  # noqa
         check(helpers.neighbors(a, filterfunc=f) == [b], "filter key")
         check(helpers.neighbors(a, filterfunc=f) == [b], "filter key hit")
-        try:
-            helpers.neighbors(a, filterfunc=UnhashableFilter())
-            check(False, "unhashable filter cannot be a cache key")
-        except TypeError:
-            check(True, "")
+        # an unhashable filter cannot be a cache key: such a query is simply
+        # never cached (since ffc7541; it raised TypeError before that)
+        for _ in range(2):
+            check(
+                helpers.neighbors(a, filterfunc=UnhashableFilter()) == [b],
+                "unhashable filter cannot be a cache key, answer is computed",
+            )
         after = Vertex.total_cache_stats()
         check(before != after and after.startswith("=== CACHE STATISTICS OVERALL ==="), "stats text")
 
@@ -432,7 +434,7 @@ def cache_cases():
 
         nb, na = numbers(before), numbers(after)
         # hits: 2 plain + 1 filter; misses and insertions: 4 plain on a, 1 on c,
-        # 1 filter; the unhashable filter fails before anything is counted
+        # 1 filter; the queries with the unhashable filter count as nothing
         check([na[k] - nb[k] for k in (1, 2, 4)] == [3, 6, 6], f"stats deltas {nb} {na}")
 
         # switching caching off and on again never yields stale answers
